@@ -147,7 +147,12 @@ def make_mutant(file, qual, desc):
         if isinstance(node, ast.ClassDef) and node.name == cname:
             for st in node.body:
                 if isinstance(st, ast.FunctionDef) and st.name == fname:
-                    for d, target, how in mutations_of(st):
+                    cands = mutations_of(st)
+                    if not any(d == desc for d, _, _ in cands):
+                        # line numbers moved since the sweep: match on the text after the line prefix (first such mutation)
+                        strip = lambda x: x.split(" ", 1)[1] if x.startswith("L") else x
+                        cands = [(desc if strip(d) == strip(desc) else d, t, h) for d, t, h in cands]
+                    for d, target, how in cands:
                         if d == desc:
                             new = apply(tree, st, target, how)
                             if new is not None:
@@ -160,7 +165,7 @@ def make_mutant(file, qual, desc):
     return None
 
 
-def evaluate(m, checks, stable_ids):
+def evaluate(m, checks, stable_ids, skip_tests=False):
     file, qual, desc = m
     src = make_mutant(file, qual, desc)
     if src is None:
@@ -181,9 +186,9 @@ def evaluate(m, checks, stable_ids):
             if os.path.isdir(os.path.join(REPO, d)):
                 shutil.rmtree(os.path.join(dst, d), ignore_errors=True)
                 os.symlink(os.path.join(REPO, d), os.path.join(dst, d))
-        r = subprocess.run(["/venv/bin/python", "-m", "pytest", "-q", "-p", "no:cacheprovider", "--timeout=600", "-x"] + stable_ids,
+        r = None if skip_tests else subprocess.run(["/venv/bin/python", "-m", "pytest", "-q", "-p", "no:cacheprovider", "--timeout=600", "-x"] + stable_ids,
                            cwd=dst, capture_output=True, text=True, env=dict(os.environ, PYTHONPATH=dst))
-        if "538 passed" not in r.stdout:
+        if not skip_tests and "538 passed" not in r.stdout:
             return m, "killed-by-tests", {}
         res = {}
         ev = os.path.join(tmp, "ev")
@@ -201,7 +206,10 @@ def main():
     ap.add_argument("--jobs", type=int, default=16)
     ap.add_argument("--seed", type=int, default=int(os.environ.get("VERIF_SEED", "0")))
     ap.add_argument("--only")
+    ap.add_argument("--recheck", help="SWEEP_<n>.json: re-run the checks on its undetected survivors only (no test run)")
     a = ap.parse_args()
+    if a.recheck:
+        return recheck(a)
     allm = gen_all(a.only)
     random.Random(a.seed).shuffle(allm)
     sel = allm[: a.max]
@@ -223,6 +231,31 @@ def main():
                    undetected=und, all=out), open(os.path.join(VERIF, "selftest", "mutants", f"SWEEP_{a.seed}.json"), "w"), indent=1)
     print(f"evaluated {len(out)}; killed by the suite {sum(1 for o in out if o['status'] == 'killed-by-tests')}; survivors {len(surv)}; "
           f"reported by a check {sum(1 for o in surv if o['caught_by'])}; undetected {len(und)}")
+
+
+def recheck(a):
+    path = a.recheck if os.path.exists(a.recheck) else os.path.join(VERIF, "selftest", "mutants", a.recheck)
+    d = json.load(open(path))
+    checks = [c["property_id"] for c in json.load(open(os.path.join(VERIF, "MANIFEST.json")))["checks"]]
+    sel = [(u["file"], u["function"], u["mutation"]) for u in d["undetected"]]
+    still = []
+    with ThreadPoolExecutor(a.jobs) as ex:
+        for m, status, res in ex.map(lambda mm: evaluate(mm, checks, [], skip_tests=True), sel):
+            hit = [c for c, v in res.items() if v == "V"]
+            err = [c for c, v in res.items() if v == "E"]
+            print(f"{status:10s} {m[0]}::{m[1]} {m[2]}  caught={','.join(hit) or '-'} err={','.join(err) or '-'}", flush=True)
+            for u in d["undetected"]:
+                if (u["file"], u["function"], u["mutation"]) == m:
+                    u["caught_by"], u["analysis_errors"], u["status"] = hit, err, status
+            for o in d["all"]:
+                if (o["file"], o["function"], o["mutation"]) == m:
+                    o["caught_by"], o["analysis_errors"] = hit, err
+    d["undetected"] = [u for u in d["undetected"] if not u["caught_by"] and not u["analysis_errors"] and u["status"] == "survivor"]
+    surv = [o for o in d["all"] if o["status"] == "survivor"]
+    d["reported"] = sum(1 for o in surv if o["caught_by"])
+    d["analysis_error_only"] = sum(1 for o in surv if not o["caught_by"] and o["analysis_errors"])
+    json.dump(d, open(path, "w"), indent=1)
+    print(f"survivors {len(surv)}; reported by a check {d['reported']}; analysis error only {d['analysis_error_only']}; undetected {len(d['undetected'])}")
 
 
 def _stable_ids():
